@@ -183,10 +183,11 @@ type Server struct {
 	tick  int64
 	seq   int
 
-	log          []*Call
-	curRec       int
-	recCalls     int
-	recGoroutine uint64
+	log                []*Call
+	curRec             int
+	recCalls           int
+	chaosN, chaosCount int
+	recGoroutine       uint64
 	// CrashOnForeignGoroutine counts crash faults degraded to plain failures (see applyFault).
 	CrashOnForeignGoroutine int
 	curActor                string
@@ -361,6 +362,17 @@ func (s *Server) react(a ktesting.Action, pc bool) (bool, runtime.Object, error)
 	c.Before = s.store[res][c.NS+"/"+c.Name]
 
 	f := s.matchFault(c)
+	if f == nil && s.chaosN > 0 && c.Actor == "controller" {
+		// live-mode chaos: every chaosN-th controller call fails (500 or a conflict), nothing applied
+		s.chaosCount++
+		if s.chaosCount%s.chaosN == 0 {
+			kind := "500"
+			if c.Verb == "update" && s.chaosCount%(2*s.chaosN) == 0 {
+				kind = "conflict"
+			}
+			f = &Fault{Kind: kind, Mode: "before"}
+		}
+	}
 	var ret runtime.Object
 	var err error
 	if f != nil {
@@ -889,6 +901,13 @@ func (s *Server) EndReconcile() {
 func (s *Server) SetActor(a string) {
 	s.mu.Lock()
 	s.curActor = a
+	s.mu.Unlock()
+}
+
+// SetChaos makes every n-th controller call fail (0 switches it off).
+func (s *Server) SetChaos(n int) {
+	s.mu.Lock()
+	s.chaosN = n
 	s.mu.Unlock()
 }
 
